@@ -781,6 +781,13 @@ func (e *Env) evalCall(t *ast.CallExpr) Val {
 			k := e.eval(t.Args[1])
 			_, ok := c.mapLookup(e.cur, m, k)
 			return boolVal(ok)
+		case "iface":
+			// iface(x): x boxed into an interface value (dynamic type = static type of x)
+			v := e.eval(t.Args[0])
+			if _, ok := v.T.Underlying().(*types.Interface); ok {
+				return v
+			}
+			return c.makeInterface(v, v.T, types.NewInterfaceType(nil, nil))
 		case "objof":
 			v := e.eval(t.Args[0])
 			if _, ok := v.T.Underlying().(*types.Interface); ok {
@@ -1043,47 +1050,33 @@ func (c *FnCtx) mapLen(st *State, m Val) *Term {
 	return App("maplen_"+ks, SInt, Select(has, m.L[0]))
 }
 
-// commonIndexOffset inspects the index arguments of select terms mentioning the bound variable k.
-// If they all have the shape (+ OFF k) for one k-free OFF it returns OFF, otherwise nil.
+// commonIndexOffset inspects the index arguments of select terms mentioning the bound variable k and returns
+// the k-free OFF of the first index of shape (+ OFF k) (nil if there is none, or if a bare k index exists:
+// then the quantifier already has a plain select pattern).
 func commonIndexOffset(t *Term, k string) *Term {
 	var off *Term
-	ok := true
-	found := false
+	bare := false
 	var walk func(x *Term)
 	walk = func(x *Term) {
-		if !ok {
-			return
-		}
 		if x.Op == "select" && len(x.Args) == 2 && mentionsAny(x.Args[1], []string{k}) {
 			idx := x.Args[1]
-			var o *Term
-			if idx.Op == "+" && len(idx.Args) == 2 {
+			if len(idx.Args) == 0 && idx.Op == k {
+				bare = true
+			}
+			if off == nil && idx.Op == "+" && len(idx.Args) == 2 {
 				if idx.Args[1].Op == k && len(idx.Args[1].Args) == 0 && !mentionsAny(idx.Args[0], []string{k}) {
-					o = idx.Args[0]
+					off = idx.Args[0]
 				} else if idx.Args[0].Op == k && len(idx.Args[0].Args) == 0 && !mentionsAny(idx.Args[1], []string{k}) {
-					o = idx.Args[1]
+					off = idx.Args[1]
 				}
 			}
-			if o == nil {
-				ok = false
-				return
-			}
-			if off == nil {
-				off = o
-			} else if off.String() != o.String() {
-				ok = false
-				return
-			}
-			found = true
-			walk(x.Args[0])
-			return
 		}
 		for _, a := range x.Args {
 			walk(a)
 		}
 	}
 	walk(t)
-	if !ok || !found {
+	if bare {
 		return nil
 	}
 	return off
